@@ -10,7 +10,10 @@ TECHNIQUE = ('whole-package resolved-name lints (attribute/method/module resolut
              'functions that inspect the literal text - partial evaluation of each function for either case of a marker letter and comparison of the residual programs, path walk of the '
              'C-spelling function per Python-only prefix, suffix-class vs strip-loop agreement, guard truth table per non-octal digit; '
              'pairing on every normal path (pyflow) of the counter transition methods in their callers; push/pop of the held-error stack in a finally block; '
-             'Optional-result typestate (a function with a None-returning path: ordering / arithmetic on its result needs a dominating None test)')
+             'Optional-result typestate (a function with a None-returning path: ordering / arithmetic on its result needs a dominating None test); '
+             'acceptor automaton of the item-list parser functions (call / class-header arguments, set / dict displays): the function code is evaluated by the checker\'s AST evaluator over a model '
+             'scanner whose tokens are item kinds, explored completely over (abstraction of all locals x item kinds seen), and compared with the running interpreter\'s own parser on the same shapes; '
+             'cut decision table of the C literal splitter over all escape-token shape sequences (rule C11-CUT of C11)')
 DECIDES = ('L1: every self.method(...) call resolves in the inheritance cone; L2: every Module.attr reference to a Cython module resolves; L3: literal %-format templates match their argument tuples/dicts; '
            'L4: directive keys are known to Options.py; L5: parse_directive_value handles every reachable kind of directive type with a return or ValueError; '
            'I1/I2: every utility section loaded or required exists; V1/V2: transform handlers name existing node classes and always return a node; HARG: optimisation handlers never index past their argument list; '
@@ -28,12 +31,20 @@ DECIDES = ('L1: every self.method(...) call resolves in the inheritance cone; L2
            'C43-OCTDIGIT: for each digit of the lexer\'s decimal class that the base of the leading-zero conversion (int(text, 8)) lacks, the parser\'s error guard is not false; '
            'C43-PAIR: every caller of the increment method of C43-COUPLE (enter_async) calls the decrement (exit_async) on every normal path and never the decrement alone; '
            'C43-HOLD: a list pushed on the error stack (Errors.hold_errors) is popped in the finally block that directly follows the push. '
+           'C43-ITEMSEQ (rules/s7C43.py): for p_call_parse_args (in each configuration its callers use: call, class header) and p_dict_or_set_maker, every sequence of item kinds '
+           '(positional, *iterable, **mapping, name=value, (expr)=value, generator argument; item, key: value, *, **, comprehension) that CPython\'s parser accepts is accepted by the function, '
+           'with and without trailing comma, and the function raises nothing but the scanner\'s error - decided for ALL sequences: the exploration closes over the abstract states of the function\'s locals; '
+           'C11-CUT (rules/sC11.py, shared with C11): split_string_literal puts the `""` separator between escape tokens only, so no chunk of a long C literal ends in an unfinished escape '
+           '(an escaped closing quote = C file the C compiler rejects). '
            'Written but NOT armed (pending finding FINDING_1, it reports PyrexScanner.close_bracket_action on the unmodified tree): C43-NONEORD - the result of a function that returns None '
            'on one path and a value on another is an operand of < <= > >= / arithmetic only behind a test that excludes None.')
 NOT_DECIDED = ('"accepts every valid Python program" and crashes that depend on run-time values of the compiled program or on the C compiler; '
                'exception objects whose class is not nominally visible (results of calls, parameters no call site types) and the *meaning* of each .args position; '
                'Optional results used through attribute access, iteration, membership or calls (C43-NONEORD looks at ordering and arithmetic only, and is not armed); '
                'the policy decisions of Pipeline.run_pipeline (when an InternalError is re-raised, that a CompileError is reported exactly once) - mutants pipeline_* are missed; '
+               'C43-ITEMSEQ: what the expression sub-parsers accept (they are modelled as "consume one expression"); item orders that CPython rejects and Cython accepts (info only); '
+               'parameter lists of def / lambda (p_c_arg_list parses C declarators, outside the model); the congruence of the state abstraction is checked on a second representative prefix per state, not proved; '
+               'C11-CUT: transfer of the decision table from limits 6 / 7 to the production limit 2000 (see rules/sC11.py); '
                'string / float literal text (C43-LEXCASE follows INT token text only); whether the bytes of a scanner error are rewound by tentatively_scan.')
 ASSUMPTIONS = [
     'C43-EXCSHAPE: the elements of a held-error list are instances of the classes Errors constructs and hands to report_error() (CompileError), or of subclasses, whose own __init__ is checked too',
@@ -41,6 +52,8 @@ ASSUMPTIONS = [
     'C43-LEXCASE / C43-CPREFIX: both spellings of a marker letter denote the same literal (PEP 3127), so a syntactic difference of the residual programs is a behavioural difference; '
     'C99 6.4.4.1 integer prefixes are 0x / 0X and the bare leading 0 (frozen in rules/sC43.py: C99_PREFIX_LETTERS)',
     'C43-EXCSHAPE (parameters): call sites that pass an argument of unknown class pass the same kind of exception as the typed ones',
+    'C43-ITEMSEQ: the order rules of call arguments and display items are rules of CPython\'s grammar (the reference is compile(..., PyCF_ONLY_AST) of the running interpreter, 3.12); '
+    'CPython\'s own memory of a prefix is a function of the set of item kinds it contains (the exploration key pairs that set with the abstract state of the Cython function)',
     'C43-PAIR: exits by exception (a fatal parser error) abort the compilation and need no pairing',
 ]
 
@@ -59,6 +72,9 @@ MUTATIONS = [
     # --- fourth round: see /verif/mutants/C43/*/meta.json (32 mutants: 22 breaking, 10 behaviour preserving), replayed by the thorough tier
     ('Cython/Compiler/ExprNodes.py', "seed C43c: value_as_c_integer_string `literal_type in 'oO'` -> `== 'o'`", 'C43-LEXCASE + C43-CPREFIX: caught'),
     ('Cython/Compiler/Scanning.py', 'seed C43d: _handle_close_single_ft_string_brace compares with the Optional bracket level without the None test', 'C43-NONEORD reports it when armed (pending FINDING_1)'),
+    # --- round 7: /verif/mutants/C43/cut_* and seq_* (21 mutants: 13 breaking, all reported; 8 behaviour preserving, all silent)
+    ('Cython/Compiler/StringEncoding.py', 'seed C43i: split_string_literal walks back over ONE preceding backslash only', 'C11-CUT: caught'),
+    ('Cython/Compiler/Parsing.py', 'seed C43j: p_call_parse_args tests keyword_args instead of the ** flag before *iterable', 'C43-ITEMSEQ p_call_parse_args:star-after-kw:rejected: caught'),
     # behaviour preserving (all silent)
     ('Cython/Compiler/Scanning.py', 'enter_async: test on the old value before the increment (`if self.async_enabled == 0: ...; self.async_enabled += 1`), keys installed with self.keywords.update({...})', None),
     ('Cython/Compiler/Scanning.py', 'exit_async: `if self.async_enabled == 0:` / `< 1`, keys removed with self.keywords.pop()', None),
@@ -75,13 +91,15 @@ EXEMPT = {
 
 
 def run(ctx):
-    from ..rules import scopeapi, crash2, sC43, dD6
+    from ..rules import scopeapi, crash2, sC43, dD6, sC11, s7C43
     return [crash.rule_L1(ctx), crash.rule_L2(ctx), crash.rule_L3(ctx), crash.rule_L4(ctx), crash.rule_L5(ctx), crash.rule_L7(ctx),
             iface.rule_I1(ctx), iface.rule_I2(ctx), tree.rule_V1_visit(ctx), tree.rule_V2(ctx), handlers.rule_arg_guards(ctx),
             gen2.rule_G2(ctx), gen.rule_G4(ctx), C09.rule_leading_zero(ctx), scopeapi.rule_L8(ctx), crash2.rule_L9(ctx), crash2.rule_L10(ctx),
             sC43.rule_COUPLE(ctx), sC43.rule_EXCSHAPE(ctx), sC43.rule_LEXCASE(ctx), sC43.rule_CPREFIX(ctx),
             sC43.rule_LEXSUFFIX(ctx), sC43.rule_OCTDIGIT(ctx), sC43.rule_PAIR(ctx), sC43.rule_HOLD(ctx),
             sC43.rule_NONEORD(ctx),     # found PyrexScanner.close_bracket_action comparing a None nesting level (repaired: 921d6e3cf)
+            sC11.rule_cut(ctx),         # the cut decision of split_string_literal (rule of C11): a `""` separator inside an escape leaves an unterminated C literal (seed C43i)
+            s7C43.rule_ITEMSEQ(ctx),
             dD6.rule_DEFERRED(ctx),     # found PostParse.visit_ErrorNode returning None / match handlers validating before visiting (repaired: efc8b7b65)
             # dD6.rule_TOKERR (tokenizer errors discarded by tentatively_scan: `with ('abc<newline>): pass` compiles silently) is NOT registered: accepting an invalid
             # text without a message is outside the property as stated (it demands no crash, and acceptance of what CPython accepts); see SIDE_FINDINGS.md
